@@ -216,6 +216,36 @@ static int c27_param_range() {
     return bad != 0;
 }
 
+// C27: one shared procedure_timeout_: a PDU that is about ANOTHER procedure stops the 40 s response timer of an unanswered one
+//      (a) remote_versions_request() unanswered, LL_UNKNOWN_RSP(LL_CONNECTION_PARAM_REQ) received
+//      (b) initiating_connection_parameter_request() unanswered, the central starts its own version exchange (LL_VERSION_IND)
+//      (c) remote_versions_request() answered with LL_UNKNOWN_RSP(LL_VERSION_IND): timer NOT stopped, closed with 0x22
+static int c27_shared_timer() {
+    int bad = 0;
+    for ( int variant = 0; variant < 3; ++variant ) {
+        cbs.clear();
+        plain_ll ll;
+        ll.respond_to( 37, connect_ind( 3200, 3200 ) );                              // 4 s interval, 32 s supervision timeout
+        event( ll, {} );
+        if ( variant == 1 ) call( ll, [&ll]() { ll.initiating_connection_parameter_request( 10, 20, 0, 100 ); } );
+        else                call( ll, [&ll]() { ll.remote_versions_request(); } );
+        event( ll, {} ); event( ll, {} );
+        if ( variant == 0 ) event( ll, { { 0x07, 0x0f } } );
+        if ( variant == 1 ) event( ll, { { 0x0c, 0x09, 0x01, 0x02, 0x03, 0x04 } } );
+        if ( variant == 2 ) event( ll, { { 0x07, 0x0c } } );
+        for ( int i = 0; i < 16; ++i ) event( ll, {} );                              // 64 s
+        ll.end_of_simulation( bll::delta_time( 90u * 1000u * 1000u ) );
+        ll.run();
+        const std::string s = all_callbacks();
+        const bool closed = s.find( "closed" ) != std::string::npos;
+        std::printf( "c27_shared_timer %c: connection events: %u, callbacks: %s\n", "abc"[ variant ], unsigned( ll.connection_events().size() ), s.c_str() );
+        if ( variant < 2 && !closed ) { ++bad; std::printf( "DEFECT: own request unanswered for more than 60 s, the response timer was stopped by a PDU about another procedure\n" ); }
+        if ( variant == 2 && closed ) { ++bad; std::printf( "DEFECT: connection closed although the version exchange was ended by LL_UNKNOWN_RSP(LL_VERSION_IND)\n" ); }
+    }
+    if ( !bad ) std::printf( "ok\n" );
+    return bad != 0;
+}
+
 int main( int argc, char** argv ) {
     const std::string which = argc > 1 ? argv[ 1 ] : "all";
     int n = 0;
@@ -225,5 +255,6 @@ int main( int argc, char** argv ) {
     if ( which == "all" || which == "c27_version" )     n += c27_version();
     if ( which == "all" || which == "c27_phy_timeout" ) n += c27_phy_timeout();
     if ( which == "all" || which == "c27_param_range" ) n += c27_param_range();
+    if ( which == "all" || which == "c27_shared_timer" ) n += c27_shared_timer();
     return n;
 }
